@@ -141,10 +141,30 @@ func runC09(c *Ctx) {
 		func(f string) bool {
 			return strings.HasSuffix(f, ".PayloadLength != 0") || strings.HasSuffix(f, ".PayloadLength > 0")
 		})
-	guard("receiver-found", "delivery dominated by receiver != nil", "delivery is reachable without a registered receiver having been found",
-		func(f string) bool {
-			return strings.HasPrefix(f, "lookup(") && strings.HasSuffix(f, " != nil") && strings.Contains(f, ".protocolReceivers,")
-		})
+	// the receiver whose channel is used: non-nil on every path to the delivery, and taken from the registered receivers
+	{
+		var recv ssa.Value
+		switch x := sink.(type) {
+		case *ssa.Send:
+			recv = receiverOfChan(x.Chan)
+		case *ssa.Select:
+			for _, st := range x.States {
+				if st.Send != nil && st.Send == sentVal {
+					recv = receiverOfChan(st.Chan)
+				}
+			}
+		}
+		if recv == nil {
+			c.Undecided("readLoop: the receiver owning the delivery channel was not identified")
+		} else {
+			want := desc(recv) + " != nil"
+			v := c.mustPass(rl, sinks, func(f string) bool {
+				return f == want || (strings.HasPrefix(f, "lookup(") && strings.HasSuffix(f, " != nil") && strings.Contains(f, ".protocolReceivers,"))
+			})
+			c.Check(v[0].OK, "receiver-found", key, sink.Pos(), "delivery dominated by receiver != nil", "delivery is reachable without a registered receiver having been found ("+v[0].Witness+")")
+			c.Check(derivesOnlyFromField(recv, "protocolReceivers", 0, nil), "receiver-found", key+":registered", sink.Pos(), "the receiver is read from the registered receivers", "the receiver delivered to is "+shortArg(trace(recv))+", not one read from protocolReceivers")
+		}
+	}
 	// payload buffer is make([]byte, header.PayloadLength)
 	okMake := false
 	for _, b := range rl.Blocks {
@@ -314,19 +334,59 @@ func (c *Ctx) checkRejectCallsSendError(rl *ssa.Function) {
 
 func (c *Ctx) checkRouting(rl *ssa.Function, sink ssa.Instruction, sent ssa.Value) {
 	key := "muxer.(*Muxer).readLoop"
-	// the receiver channel derives from lookup(lookup(protocolReceivers, K), R)
+	// the receiver channel derives from lookup(lookup(protocolReceivers, K), R); the lookups may live in a private helper
+	// called from readLoop, in which case the helper's parameters stand for the call's arguments
+	toCaller := func(fn *ssa.Function, v ssa.Value) ssa.Value {
+		if fn == rl {
+			return v
+		}
+		p, ok := v.(*ssa.Parameter)
+		if !ok {
+			return v
+		}
+		idx := -1
+		for i, q := range fn.Params {
+			if q == p {
+				idx = i
+			}
+		}
+		var site ssa.CallInstruction
+		n := 0
+		for _, ci := range allCalls(rl) {
+			if ci.Common().StaticCallee() == fn {
+				site = ci
+				n++
+			}
+		}
+		if n != 1 || idx < 0 || idx >= len(site.Common().Args) {
+			return v
+		}
+		return site.Common().Args[idx]
+	}
 	var outer *ssa.Lookup
-	for _, b := range rl.Blocks {
-		for _, in := range b.Instrs {
-			if lk, ok := in.(*ssa.Lookup); ok && !lk.CommaOk {
-				if strings.Contains(desc(lk.X), ".protocolReceivers,") {
-					outer = lk
-				}
+	var outerFn *ssa.Function
+	type innerLk struct {
+		lk *ssa.Lookup
+		fn *ssa.Function
+	}
+	var inners []innerLk
+	for _, fn := range closureFuncs(rl, 1) {
+		for _, in := range fnInstrs(fn) {
+			lk, ok := in.(*ssa.Lookup)
+			if !ok {
+				continue
+			}
+			if !lk.CommaOk && strings.Contains(desc(lk.X), ".protocolReceivers,") {
+				outer, outerFn = lk, fn
+			}
+			if strings.HasSuffix(desc(lk.X), ".protocolReceivers") {
+				inners = append(inners, innerLk{lk, fn})
 			}
 		}
 	}
 	if outer == nil {
 		c.Undecided("readLoop: receiver lookup by role not found")
+		return
 	}
 	// key of inner lookups: GetProtocolId(<sent>.SegmentHeader) or the ProtocolUnknown constant
 	unknown := c.ConstInt("muxer", "ProtocolUnknown")
@@ -334,16 +394,12 @@ func (c *Ctx) checkRouting(rl *ssa.Function, sink ssa.Instruction, sent ssa.Valu
 	wantKey := "call:muxer.(*SegmentHeader).GetProtocolId(" + sentD + ".SegmentHeader)"
 	okKeys := true
 	nInner := 0
-	for _, b := range rl.Blocks {
-		for _, in := range b.Instrs {
-			if lk, ok := in.(*ssa.Lookup); ok && strings.HasSuffix(desc(lk.X), ".protocolReceivers") {
-				nInner++
-				k := desc(lk.Index)
-				if k != wantKey && k != fmt.Sprint(unknown) {
-					okKeys = false
-					c.Bad("route-by-protocol-id", key, lk.Pos(), "receiver map indexed by %s, not by the received segment's GetProtocolId()", k)
-				}
-			}
+	for _, il := range inners {
+		nInner++
+		k := desc(toCaller(il.fn, il.lk.Index))
+		if k != wantKey && k != fmt.Sprint(unknown) {
+			okKeys = false
+			c.Bad("route-by-protocol-id", key, il.lk.Pos(), "receiver map indexed by %s, not by the received segment's GetProtocolId()", k)
 		}
 	}
 	if okKeys && nInner > 0 {
@@ -351,12 +407,13 @@ func (c *Ctx) checkRouting(rl *ssa.Function, sink ssa.Instruction, sent ssa.Valu
 	} else if nInner == 0 {
 		c.Undecided("readLoop: no lookup in protocolReceivers")
 	}
+	roleIdx := toCaller(outerFn, outer.Index)
 	// role index: phi with Initiator on the IsResponse()-true edge
 	ini := c.ConstInt("muxer", "ProtocolRoleInitiator")
 	rsp := c.ConstInt("muxer", "ProtocolRoleResponder")
-	phi, ok := outer.Index.(*ssa.Phi)
+	phi, ok := roleIdx.(*ssa.Phi)
 	good := false
-	detail := "role index is " + desc(outer.Index)
+	detail := "role index is " + desc(roleIdx)
 	if ok && len(phi.Edges) == 2 {
 		good = true
 		for i, e := range phi.Edges {
@@ -483,6 +540,39 @@ func (c *Ctx) checkHeaderAccessors() {
 			}
 		}
 	}
+	if !okFlag {
+		// equivalent form: the id is chosen first (phi of plain id and id+flag, the flagged edge coming from the
+		// isResponse-true block) and stored once
+		isFlagged := func(d string) bool {
+			return d == "(p0 + 32768)" || d == "(p0 | 32768)" || d == "(32768 + p0)" || d == "(32768 | p0)"
+		}
+		for _, in := range fnInstrs(ns) {
+			st, ok := in.(*ssa.Store)
+			if !ok || !strings.HasSuffix(desc(st.Addr), ".ProtocolId") {
+				continue
+			}
+			ph, ok := st.Val.(*ssa.Phi)
+			if !ok || len(ph.Edges) != 2 {
+				continue
+			}
+			good := true
+			for i, e := range ph.Edges {
+				pred := ph.Block().Preds[i]
+				onTrue := edgeImplies(pred, ph.Block(), "T:p2")
+				onFalse := edgeImplies(pred, ph.Block(), "F:p2")
+				d := desc(e)
+				switch {
+				case isFlagged(d) && onTrue:
+				case d == "p0" && onFalse:
+				default:
+					good = false
+				}
+			}
+			if good {
+				okFlag = true
+			}
+		}
+	}
 	c.Check(okFlag, "header-writer", "muxer.NewSegment", ns.Pos(), "response flag set iff isResponse", "NewSegment does not set the response bit exactly when isResponse is true")
 }
 
@@ -541,4 +631,17 @@ func (c *Ctx) checkSenderGoroutine() {
 	if callers == 0 {
 		c.Undecided("no caller of Muxer.Send found")
 	}
+}
+
+// receiverOfChan: for a channel value loaded from a field of a receiver record (recv.ch), the record value; otherwise the channel itself.
+func receiverOfChan(ch ssa.Value) ssa.Value {
+	if u, ok := ch.(*ssa.UnOp); ok {
+		if fa, ok := u.X.(*ssa.FieldAddr); ok {
+			return fa.X
+		}
+	}
+	if f, ok := ch.(*ssa.Field); ok {
+		return f.X
+	}
+	return ch
 }
